@@ -138,16 +138,24 @@ func RunMutant(m Mutant, repo, verif string) MutantResult {
 		// An obligation that merely ran out of the short limits of a mutant run (many mutants side by side) is decided
 		// again with the limits of the real check: a mutant counts as detected only by obligations that still fail then.
 		still := map[string]bool{}
+		confirmed := false
 		for _, r := range rep.Results {
+			if r.Status == "failed" {
+				confirmed = true // refuted with a counter-model: nothing to re-decide
+			}
+		}
+		for _, r := range rep.Results {
+			if confirmed {
+				break
+			}
 			if r.Status != "undecided" || r.File == "" {
 				continue
 			}
-			st, _, _, _, _ := discharge(r.File, 10, true)
-			if st == "timeout" || st == "unknown" {
-				st, _, _, _, _ = dischargeWith(retrySolvers, r.File, 30, true)
-			}
+			st, _, _, _, _ := dischargeWith(retrySolvers, r.File, 12, true)
 			if st == "unsat" {
 				still[r.Obl.Name] = true
+			} else {
+				confirmed = true // one obligation that stays undischarged is enough
 			}
 		}
 		if len(still) > 0 {
